@@ -37,6 +37,18 @@ def c09_stats_bytes_include_descriptor(sc, rec):
             and isinstance(d.get('stat'), int) and isinstance(d.get('recorded'), int) and d['stat'] - d['recorded'] == d.get('desc_size'))
 
 
+def c09_excel_hash_depends_on_clock(sc, rec):
+    """excel format only, and the two dumps happened at different simulated instants or under different time zones:
+    the xlsx container embeds created / modified stamps and zip entry times, so the bytes (and the hash) differ."""
+    d = rec.get('detail') or {}
+    if rec.get('clause') != 'repeatable-hash' or rec.get('key') != 'excel-clock':
+        return False
+    if ((sc or {}).get('opts') or {}).get('format') != 'excel':
+        return False
+    clock = d.get('clock') or [None, None]
+    return clock[0] != clock[1] or bool(d.get('tz2'))
+
+
 def c03_json_field_order(sc, rec):
     """JSON format, a non-empty resource whose field names are not in alphabetical order, and the load() round trip
     (not the independent decode) fails: load() raised a cast error or returned values paired with the wrong fields."""
